@@ -29,5 +29,6 @@ registry! {
     c01::C01,
     c07::C07,
     c08::C08,
+    c09::C09,
     c10::C10,
 }
